@@ -2473,6 +2473,58 @@ fn dispatch_conv(sh: &mut Shard, st: &mut Stats, c: &ConvCase, verbose: bool) {
     }
 }
 
+/// Rings of realistic length (n open coordinates, n = 17..1024), held in a Vec that is exactly full (collect, clone) or
+/// has spare capacity (push), go through every closing entry point: Polygon::new (exterior and interior), exterior_mut,
+/// try_exterior_mut (Ok / Err after assigning), interiors_mut, interiors_push, LineString::close. Every ring must come
+/// out closed: the n coordinates as given followed by a copy of the first.
+fn run_long_rings(sh: &mut Shard, st: &mut Stats, n: usize, spare: bool, verbose: bool) {
+    let open: Vec<Coord<f64>> = (0..n).map(|i| { let a = i as f64; Coord { x: (a * 0.37).cos() * (10.0 + (i % 7) as f64), y: (a * 0.37).sin() * (10.0 + (i % 5) as f64) + a } }).collect();
+    let mk = |spare: bool| -> Vec<Coord<f64>> {
+        if spare {
+            let mut v = Vec::with_capacity(n + 7);
+            for c in &open {
+                v.push(*c);
+            }
+            v
+        } else {
+            open.clone()
+        }
+    };
+    let mut want = open.clone();
+    want.push(open[0]);
+    let small = || LineString::new(vec![Coord { x: 0.0, y: 0.0 }, Coord { x: 1.0, y: 0.0 }, Coord { x: 0.0, y: 1.0 }, Coord { x: 0.0, y: 0.0 }]);
+    let sites: Vec<(&str, Result<LineString<f64>, String>)> = vec![
+        ("Polygon::new(exterior)", call(|| Polygon::new(LineString::new(mk(spare)), vec![]).exterior().clone())),
+        ("Polygon::new(interior)", call(|| Polygon::new(small(), vec![LineString::new(mk(spare))]).interiors()[0].clone())),
+        ("exterior_mut", call(|| { let mut p = Polygon::new(small(), vec![]); p.exterior_mut(|e| *e = LineString::new(mk(spare))); p.exterior().clone() })),
+        ("try_exterior_mut:Ok", call(|| { let mut p = Polygon::new(small(), vec![]); let _ = p.try_exterior_mut(|e| -> Result<(), ()> { *e = LineString::new(mk(spare)); Ok(()) }); p.exterior().clone() })),
+        ("try_exterior_mut:Err", call(|| { let mut p = Polygon::new(small(), vec![]); let _ = p.try_exterior_mut(|e| -> Result<(), ()> { *e = LineString::new(mk(spare)); Err(()) }); p.exterior().clone() })),
+        ("interiors_mut", call(|| { let mut p = Polygon::new(small(), vec![small()]); p.interiors_mut(|rs| rs[0] = LineString::new(mk(spare))); p.interiors()[0].clone() })),
+        ("interiors_push", call(|| { let mut p = Polygon::new(small(), vec![]); p.interiors_push(LineString::new(mk(spare))); p.interiors()[0].clone() })),
+        ("interiors_push(Vec<Coord>)", call(|| { let mut p = Polygon::new(small(), vec![]); p.interiors_push(mk(spare)); p.interiors()[0].clone() })),
+        ("LineString::close", call(|| { let mut l = LineString::new(mk(spare)); l.close(); l })),
+        ("clone().close", call(|| { let l = LineString::new(mk(true)); let mut c = l.clone(); c.close(); c })),
+    ];
+    for (site, got) in sites {
+        sh.eval(1);
+        st.bump("long_ring:closing_entry_point");
+        let bad = match &got {
+            Ok(l) => l.0.len() != want.len() || !l.0.iter().zip(want.iter()).all(|(a, b)| a.x.to_bits() == b.x.to_bits() && a.y.to_bits() == b.y.to_bits()),
+            Err(_) => true,
+        };
+        if verbose {
+            println!("{site}: n = {n}, spare capacity {spare}: {}", if bad { "NOT the closed ring" } else { "closed" });
+        }
+        if bad {
+            let gotd = match &got {
+                Ok(l) => format!("{} coordinates, first {:?} last {:?}", l.0.len(), l.0.first(), l.0.last()),
+                Err(e) => format!("panic: {e}"),
+            };
+            viol(sh, &format!("ring.closed.long|{site}|-"), || json!({"property": "C18", "check": "ring.closed.long", "kind": "long_rings", "n": n, "spare": spare, "site": site, "expected": format!("{} coordinates: the {} given and a copy of the first", n + 1, n), "got": gotd}));
+        }
+    }
+}
+
 pub fn run(ctx: &Ctx, sh: &mut Shard) {
     let plan = exh_plan(&ctx.tier);
     let ra = rect_alphabet();
@@ -2501,6 +2553,12 @@ pub fn run(ctx: &Ctx, sh: &mut Shard) {
             run_lsclose::<i32>(sh, &mut st, None, false);
         } else {
             let mut r = Rng::derive(ctx.seed, ctx.shard, k);
+            if k % 500 == 3 {
+                st.bump("case:long_rings");
+                let n = crate::gen::long_count(&mut r);
+                run_long_rings(sh, &mut st, n, r.chance(1, 3), false);
+                continue;
+            }
             match r.below(20) {
                 0..=10 => {
                     st.bump("case:random_polygon_history");
@@ -2560,6 +2618,7 @@ pub fn replay(v: &Value, sh: &mut Shard) {
                 run_lsclose::<f64>(sh, &mut st, Some(&ring), true)
             }
         }
+        "long_rings" => run_long_rings(sh, &mut st, v["n"].as_u64().unwrap_or(300) as usize, v["spare"].as_bool().unwrap_or(false), true),
         k => {
             eprintln!("C18 replay: unknown kind {k:?}");
             std::process::exit(2);
